@@ -1117,3 +1117,108 @@ func init() {
 		return out
 	}})
 }
+
+func init() {
+	Scenarios = append(Scenarios, Scenario{Name: "S5-relation-observers-of-a-batch-over-tables-that-change-different-relations", Props: []string{"C08", "C09"}, Run: func() []string {
+		// One SetRelationsBatch names both relation components of a tuple; the source tables differ in which of the two
+		// targets actually changes (both, only the first, only the second, none). An observer For(Rx) of OnAddRelations /
+		// OnRemoveRelations is due exactly for the entities whose Rx target changes - as the per-entity call in a twin world
+		// built by the same calls reports it - whatever the order of the tables in the batch.
+		var out []string
+		type key struct {
+			obs string
+			e   ecs.Entity
+		}
+		for variant := 0; variant < 4 && len(out) == 0; variant++ {
+			build := func() (*ecs.World, *ecs.Map3[u.R0, u.R1, u.P4], [2]ecs.Entity, [2]ecs.Entity, map[key]int) {
+				w := ecs.NewWorld(4)
+				tm := ecs.NewMap1[u.P8](w)
+				a := [2]ecs.Entity{tm.NewEntity(&u.P8{}), tm.NewEntity(&u.P8{})}
+				b := [2]ecs.Entity{tm.NewEntity(&u.P8{}), tm.NewEntity(&u.P8{})}
+				m := ecs.NewMap3[u.R0, u.R1, u.P4](w)
+				// table creation order varies: the batch visits tables in creation order
+				orders := [][][2]int{
+					{{0, 0}, {1, 0}, {0, 1}, {1, 1}},
+					{{1, 0}, {0, 0}, {1, 1}, {0, 1}},
+					{{0, 1}, {0, 0}, {1, 0}, {1, 1}},
+					{{1, 1}, {0, 1}, {1, 0}, {0, 0}},
+				}
+				for _, ab := range orders[variant] {
+					for n := 0; n < 3; n++ {
+						m.NewEntity(&u.R0{}, &u.R1{V: int64(n)}, &u.P4{}, ecs.Rel[u.R0](a[ab[0]]), ecs.Rel[u.R1](b[ab[1]]))
+					}
+				}
+				got := map[key]int{}
+				reg := func(name string, o *ecs.Observer) {
+					o.Do(func(e ecs.Entity) { got[key{name, e}]++ }).Register(w)
+				}
+				r0, r1 := ecs.C[u.R0](), ecs.C[u.R1]()
+				reg("add", ecs.Observe(ecs.OnAddRelations))
+				reg("add/R0", ecs.Observe(ecs.OnAddRelations).For(r0))
+				reg("add/R1", ecs.Observe(ecs.OnAddRelations).For(r1))
+				reg("add/R0,R1", ecs.Observe(ecs.OnAddRelations).For(r0).For(r1))
+				reg("rem", ecs.Observe(ecs.OnRemoveRelations))
+				reg("rem/R0", ecs.Observe(ecs.OnRemoveRelations).For(r0))
+				reg("rem/R1", ecs.Observe(ecs.OnRemoveRelations).For(r1))
+				reg("rem/R0,R1", ecs.Observe(ecs.OnRemoveRelations).For(r0).For(r1))
+				return w, m, a, b, got
+			}
+			w1, m1, a1, b1, got1 := build()
+			w2, m2, a2, b2, got2 := build()
+			// what is due, from the targets before the call
+			want := map[key]int{}
+			f := ecs.NewFilter3[u.R0, u.R1, u.P4](w1)
+			var list []ecs.Entity
+			q := f.Query()
+			for q.Next() {
+				e := q.Entity()
+				list = append(list, e)
+			}
+			for _, e := range list {
+				c0, c1 := m1.GetRelation(e, 0) != a1[1], m1.GetRelation(e, 1) != b1[1]
+				if c0 || c1 {
+					want[key{"add", e}], want[key{"rem", e}] = 1, 1
+				}
+				if c0 {
+					want[key{"add/R0", e}], want[key{"rem/R0", e}] = 1, 1
+				}
+				if c1 {
+					want[key{"add/R1", e}], want[key{"rem/R1", e}] = 1, 1
+				}
+				if c0 && c1 {
+					want[key{"add/R0,R1", e}], want[key{"rem/R0,R1", e}] = 1, 1
+				}
+			}
+			m1.SetRelationsBatch(f.Batch(), nil, ecs.Rel[u.R0](a1[1]), ecs.Rel[u.R1](b1[1]))
+			for _, e := range list {
+				if !w2.Alive(e) {
+					out = append(out, fmt.Sprintf("variant %d: the twin world does not know %v", variant, e))
+					return out
+				}
+				m2.SetRelations(e, ecs.Rel[u.R0](a2[1]), ecs.Rel[u.R1](b2[1]))
+			}
+			// "For(R0).For(R1)": documented semantics are the library's; the twin decides it, the explicit expectation is
+			// only used for the single-component and the unrestricted observers
+			for _, e := range list {
+				for _, o := range []string{"add", "add/R0", "add/R1", "add/R0,R1", "rem", "rem/R0", "rem/R1", "rem/R0,R1"} {
+					k := key{o, e}
+					if got1[k] != got2[k] {
+						out = append(out, fmt.Sprintf("variant %d: observer %s ran %d time(s) for %v in SetRelationsBatch, %d time(s) in the per-entity SetRelations of a twin world", variant, o, got1[k], e, got2[k]))
+					}
+					if o != "add/R0,R1" && o != "rem/R0,R1" && got1[k] != want[k] {
+						out = append(out, fmt.Sprintf("variant %d: observer %s ran %d time(s) for %v in SetRelationsBatch, due %d time(s) (R0 changes: %v, R1 changes: %v)", variant, o, got1[k], e, want[k], want[key{"add/R0", e}] == 1, want[key{"add/R1", e}] == 1))
+					}
+				}
+			}
+			for k, n := range got1 {
+				if !w1.Alive(k.e) || n > 1 {
+					out = append(out, fmt.Sprintf("variant %d: observer %s ran %d time(s) for %v", variant, k.obs, n, k.e))
+				}
+			}
+			if len(out) > 6 {
+				out = out[:6]
+			}
+		}
+		return out
+	}})
+}
